@@ -68,7 +68,9 @@ def config_case(draw):
                                                 "mode": "combinatorial", "broadcast": False, "collection": "FloatDataCollection"}})
     # nested parameter values
     if draw(st.integers(0, 4)) == 0:
-        nodes.append({"p": "VNestedParamOp", "params": {"opts": {"k": draw(gen.floats), "deep": {"a": [1.0, {"b": draw(st.sampled_from(["x", "y"]))}], "flag": draw(st.booleans())}}}})
+        nodes.append({"p": "VNestedParamOp", "params": {"opts": {"k": draw(gen.floats), "deep": {"a": [1.0, {"b": draw(st.sampled_from(["x", "y"]))}], "flag": draw(st.booleans())},
+                                                             # plain scalars that YAML 1.1 reads as strings and YAML 1.2 as floats
+                                                             "sci": draw(st.sampled_from(["1e3", "2.5e6", ".5e2", "1E3", "x"]))}}})
     rs = None
     if draw(st.booleans()):
         blocks = []
